@@ -300,6 +300,9 @@ class Exec:
                 continue
             if k == "return":
                 if "_0" not in env:
+                    if self.lenient:
+                        results.append((conds, OPAQUE("unit / untracked return value")))
+                        continue
                     raise Unsupported("return without _0")
                 results.append((conds, env["_0"]))
             elif k == "goto":
